@@ -99,7 +99,7 @@ let handle_obs label kind (value : string) =
       if List.length vals <> List.length cur.universe then Printf.printf "BADLINE %d nh arity\n" !lineno
       else List.iter2 (fun nm v ->
           let mv = string_of_nh (model_find_nh label nm) in
-          let differ = if cur.kind = "fib" then mv <> v else sort_csv mv <> sort_csv v in
+          let differ = sort_csv mv <> sort_csv v in (* next hops are a set: order is not an observable *)
           if differ then diverge label "nh" (string_of_name nm ^ "=" ^ mv) (string_of_name nm ^ "=" ^ v);
           let sv = if cur.kind = "fib" then string_of_nh (spec_find_nh cur.spec nm)
                    else Rib_glue.want_nh cur.rib nm in
@@ -117,7 +117,7 @@ let handle_obs label kind (value : string) =
           cur.universe vals
   | "fib" ->
       let mv = fib_listing_string (list_fib (model_entries label)) in
-      let differ = if cur.kind = "fib" then mv <> join_sorted (items_of value) else canon_listing mv <> canon_listing value in
+      let differ = canon_listing mv <> canon_listing value in
       if differ then diverge label "fib" mv value;
       let sv = if cur.kind = "fib" then canon_listing (fib_listing_string (spec_list_fib cur.spec))
                else Rib_glue.want_listing cur.rib in
@@ -129,7 +129,7 @@ let handle_obs label kind (value : string) =
       if sv <> join_sorted (items_of value) then oracle label "sl" sv value
   | "nodes" ->
       let mv = nodes_string cur.tree.nodes in
-      let differ = if cur.kind = "fib" then mv <> join_sorted (items_of value) else canon_nodes mv <> canon_nodes value in
+      let differ = canon_nodes mv <> canon_nodes value in
       if differ then diverge label "nodes" mv value;
       cur.impl_nodes <- ent_map_of_string value;
       if cur.kind = "rib" then stale_records label cur.impl_nodes
@@ -143,7 +143,7 @@ let handle_obs label kind (value : string) =
         Printf.printf "MINIMAL %s %d T nodes=%s pfx=%s\n" cur.case_id cur.opno (nodes_string cur.impl_nodes) value
   | "real" ->
       let mv = nodes_string cur.ht.real in
-      let differ = if cur.kind = "fib" then mv <> join_sorted (items_of value) else canon_nodes mv <> canon_nodes value in
+      let differ = canon_nodes mv <> canon_nodes value in
       if differ then diverge label "real" mv value;
       cur.impl_real <- ent_map_of_string value;
       if cur.kind = "rib" then stale_records label cur.impl_real
